@@ -621,6 +621,75 @@ fn run_failed_load_case(c: &mut Case, uni: &Universe, perm: &[usize], asg: &[i32
     }
 }
 
+/// Archives whose file disappears (or is replaced on disk) while the chain holds them open: the chain consists of the archives
+/// that were added; operations that need nothing from the file system (re-prioritising, removing another archive, lookups)
+/// go on answering from them.
+fn run_unlinked_case(c: &mut Case, uni: &Universe, dir: &Path, idx: u64, perm: &[usize], asg: &[i32; 4], victim: usize, how: &str, newprio: i32) {
+    let ctx = format!("ops=set_priority|file-{how}-while-open");
+    let mut arcs = Vec::new();
+    for (a, spec) in uni.arcs.iter().enumerate() {
+        let pth = dir.join(format!("u{idx}-{a}.mpq"));
+        if std::fs::copy(&spec.path, &pth).is_err() {
+            c.inconclusive("could not copy a fixture archive");
+            return;
+        }
+        arcs.push(ArcSpec { path: pth, files: spec.files.clone() });
+    }
+    let u2 = Universe { arcs, keys: uni.keys.clone(), absent: uni.absent.clone() };
+    let mut chain = PatchChain::new();
+    let mut model = Model::default();
+    for a in perm {
+        if chain.add_archive(&u2.arcs[*a].path, asg[*a]).is_err() {
+            c.violate(format!("chain-op|add-archive-failed|{ctx}"), "add_archive failed on an existing archive".to_string(), json!({}));
+            return;
+        }
+        model.add(*a, asg[*a]);
+    }
+    compare_all(c, &mut chain, &model, &u2, &ctx, &json!({"step": "all added"}));
+    // the file goes away (Unix: the open handle keeps the data) or another archive is renamed over it
+    let vp = u2.arcs[victim].path.clone();
+    let ok = match how {
+        "unlinked" => std::fs::remove_file(&vp).is_ok(),
+        _ => {
+            let other = dir.join(format!("u{idx}-replacement.mpq"));
+            std::fs::copy(&uni.arcs[(victim + 1) % uni.arcs.len()].path, &other).is_ok() && std::fs::rename(&other, &vp).is_ok()
+        }
+    };
+    if !ok {
+        c.inconclusive("could not unlink / replace the archive file");
+        return;
+    }
+    c.count(&format!("files_{how}_while_open"), 1);
+    let step = json!({"victim": format!("A{victim}"), "how": how, "new_priority": newprio});
+    match trap(|| chain.set_priority(&vp, newprio)) {
+        Ok(Ok(())) => {
+            model.set_prio(victim, newprio);
+        }
+        Ok(Err(e)) => {
+            c.violate(format!("chain-op|set-priority-failed|{ctx}"), format!("set_priority(A{victim},{newprio}) failed on an archive of the chain whose file was {how} after it had been added: {e}"), step.clone());
+        }
+        Err(p) => {
+            c.violate(format!("chain-op|panic|{}|{ctx}", p.func), format!("set_priority panicked: {}", p.msg), step.clone());
+            return;
+        }
+    }
+    compare_all(c, &mut chain, &model, &u2, &ctx, &step);
+    let other = (victim + 2) % u2.arcs.len();
+    if let Ok(Ok(())) = trap(|| chain.set_priority(&u2.arcs[other].path, -newprio)) {
+        model.set_prio(other, -newprio);
+        compare_all(c, &mut chain, &model, &u2, &ctx, &json!({"after": format!("set_priority(A{other})"), "first": step}));
+    }
+    let third = (victim + 1) % u2.arcs.len();
+    let want = model.remove(third);
+    match trap(|| chain.remove_archive(&u2.arcs[third].path)) {
+        Ok(Ok(b)) if b == want => compare_all(c, &mut chain, &model, &u2, &ctx, &json!({"after": format!("remove(A{third})"), "first": step})),
+        other => c.violate(format!("chain-op|remove-after-{how}|{ctx}"), format!("remove_archive(A{third}): {:?}", other.map(|r| r.map_err(|e| e.to_string())).map_err(|p| p.msg)), step.clone()),
+    }
+    for a in &u2.arcs {
+        let _ = std::fs::remove_file(&a.path);
+    }
+}
+
 fn record_events(st: &mut ParStats, api: &str, ev: &[wow_mpq::verif_hooks::TaskEvent], inputs: &[(PathBuf, i32)]) {
     let opens: Vec<&wow_mpq::verif_hooks::TaskEvent> = ev.iter().filter(|e| e.kind == "open").collect();
     if opens.is_empty() {
@@ -815,6 +884,27 @@ fn mode_chain(run: &mut Run) {
                         let desc = json!({"api": api, "bad_input": bkind, "bad_position_in_batch": pos, "sequential_prefix": prefix, "order": perm, "priorities": asg});
                         run.case(i, &class, desc, |c| run_failed_load_case(c, &uni, perm, &asg, api, prefix, pos, bkind, bpath));
                     }
+                }
+            }
+        }
+    }
+    // ---- archives whose file is unlinked / replaced on disk while the chain holds them
+    idx += 4000;
+    {
+        let mut k = 0u64;
+        for (pi, perm) in perms.iter().enumerate() {
+            for victim in 0..4usize {
+                for how in ["unlinked", "replaced"] {
+                    let i = idx + k;
+                    k += 1;
+                    if !run.want(i) || (!thorough && (pi + victim) % 4 != 0) {
+                        continue;
+                    }
+                    let asg = assigns[(pi * 5 + victim) % assigns.len()];
+                    let newprio = PRIOS[(pi + victim) % 3];
+                    let class = format!("U|{how}|victim={victim}|order={}|newprio={newprio}", perm.iter().map(|x| x.to_string()).collect::<String>());
+                    let desc = json!({"what": format!("archive file {how} after add_archive, then set_priority / remove_archive of others"), "victim": victim, "order": perm, "priorities": asg, "new_priority": newprio});
+                    run.case(i, &class, desc, |c| run_unlinked_case(c, &uni, &dir, i, perm, &asg, victim, how, newprio));
                 }
             }
         }
